@@ -31,6 +31,9 @@ def main():
         rc, o = sh("%s %s/demo.py" % (PY, d), cwd="/tmp", env=env)
         out["demo_clean_rc"] = rc
         rc, o = sh("git apply %s/patch.diff" % d, cwd=wt)
+        if rc != 0:   # the repository moved on since the change was written: merge it
+            rc, o = sh("git apply --3way %s/patch.diff" % d, cwd=wt)
+            out["applied_3way"] = True
         out["apply_rc"] = rc
         if rc != 0:
             out["apply_out"] = o[-500:]
